@@ -338,10 +338,10 @@ func contractAddr(i int, last byte) []byte {
 func metaContract() []byte {
 	a := make([]byte, 32)
 	a[8], a[9] = 5, 0
-	for j := 25; j < 31; j++ {
+	for j := 25; j < 30; j++ {
 		a[j] = 0x77
 	}
-	a[31] = 0xff
+	a[30], a[31] = 0xff, 0xff // the metachain identifier in its one-byte and in its two-byte reading (like the system contracts' …ffff)
 	return a
 }
 
